@@ -140,6 +140,25 @@ def run(chk):
             for xlen in (4096, 8192, 1024, 1):
                 for kind in ('raw', 'nodata', 'mbuff', 'fixed'):
                     short_lines.append(Case(p, fam='short-memory').line(engine='jit', kind=kind) + ' xlen=%d' % xlen)
+        # ... and memory that is long enough for the code although shorter than the bytecode (x86-64 code can be much denser than
+        # eBPF: 3 bytes for a register-register ALU instruction, 10 for a wide load of 16): the no_std build must compile and run as
+        # the default build does
+        fit_lines = []
+        for body, xlen in ((B.alu('add', 0, src=1) * 600, 4096), (B.alu('add', 0, src=1) * 1300, 4096), (B.alu('xor', 2, src=3, w=32) * 2500, 8192),
+                           (B.lddw(3, 0x1122334455667788) * 1000, 12288), (B.lddw(3, 5) * 700, 8192)):
+            p = B.mov(0, 0) + B.mov(1, 1) + body + B.EXIT
+            for kind in ('raw', 'nodata', 'mbuff', 'fixed'):
+                fit_lines.append(Case(p, fam='fitting-memory').line(engine='jit', kind=kind) + ' xlen=%d' % xlen)
+        f_no = vlib.harness_run(b_no, fit_lines)
+        f_std = vlib.harness_run(b_std, fit_lines)
+        for l, x, y in zip(fit_lines, f_no, f_std):
+            if re.sub(r' L=\S+', '', x) != re.sub(r' L=\S+', '', y) or not y.startswith('OK:'):
+                found = True
+                if len(chk.violations) < 12:
+                    chk.violation({'kind': 'counterexample', 'request': l if len(l) <= 60000 else l[:2000] + ' ... ' + l[-200:],
+                                   'no_std_answer': x[:300], 'std_answer': y[:300],
+                                   'meaning': 'caller-supplied executable memory that is page-aligned and at least as long as the machine code (rounded up '
+                                              'to pages) must be accepted by the no_std build, whatever the length of the bytecode'})
         s_no = vlib.harness_run(b_no, short_lines)
         s_std = vlib.harness_run(b_std, short_lines)
         for l, x, y in zip(short_lines, s_no, s_std):
